@@ -188,3 +188,68 @@ func sameSet(a, b map[string]bool) bool {
 	}
 	return true
 }
+
+// helperGroup returns f together with the functions of f's own package it
+// calls statically (transitively, up to depth levels): the private helpers a
+// clean-up refactoring may have extracted from f.
+func helperGroup(f *ssa.Function, depth int) []*ssa.Function {
+	out := []*ssa.Function{f}
+	seen := map[*ssa.Function]bool{f: true}
+	frontier := []*ssa.Function{f}
+	for d := 0; d < depth; d++ {
+		var next []*ssa.Function
+		for _, g := range frontier {
+			for _, c := range an.Calls(g) {
+				sc := an.StaticCallee(c)
+				if sc == nil || seen[sc] || sc.Blocks == nil || an.FuncPkgPath(sc) != an.FuncPkgPath(f) {
+					continue
+				}
+				seen[sc] = true
+				out = append(out, sc)
+				next = append(next, sc)
+			}
+			for _, a := range g.AnonFuncs {
+				if !seen[a] {
+					seen[a] = true
+					out = append(out, a)
+					next = append(next, a)
+				}
+			}
+		}
+		frontier = next
+	}
+	return out
+}
+
+// blockExecutes reports whether, starting at block b and following the CFG
+// until `until` (exclusive), some block contains an instruction accepted by ok
+// or a static call to a helper one of whose blocks does.
+func regionHas(start, until *ssa.BasicBlock, group []*ssa.Function, ok func(ssa.Instruction) bool) bool {
+	inHelper := map[*ssa.Function]bool{}
+	for _, g := range group[1:] {
+		for _, b := range g.Blocks {
+			for _, in := range b.Instrs {
+				if ok(in) {
+					inHelper[g] = true
+				}
+			}
+		}
+	}
+	reach := an.Reach([]*ssa.BasicBlock{start}, func(b *ssa.BasicBlock, i int) bool { return b == until })
+	for b := range reach {
+		if b == until {
+			continue
+		}
+		for _, in := range b.Instrs {
+			if ok(in) {
+				return true
+			}
+			if c, isCall := in.(ssa.CallInstruction); isCall {
+				if sc := an.StaticCallee(c); sc != nil && inHelper[sc] {
+					return true
+				}
+			}
+		}
+	}
+	return false
+}
